@@ -7,7 +7,7 @@
    exactly that state and verb (decimal print/parse, flag loop, UTF-8 encode/decode are each
    proved inverse).  The agreement of the model's MakeFormat and parser with the code and with
    the standard fmt is checked on the complete product named by the property. *)
-From Redact Require Import Bytes Tokens Utf8 Fmt Value LBuf Printer Api Forward RoutesP FormatP.
+From Redact Require Import Bytes Tokens Utf8 Fmt Value LBuf Printer Api Forward RoutesP FormatP DirectiveP.
 Import List ListNotations.
 From Coq Require Import Lia.
 Open Scope Z_scope.
@@ -57,3 +57,21 @@ Theorem C14_roundtrip_on_the_product :
   forallb (fun s => forallb (roundtrip_ok s) c14_verbs) c14_states = true.
 Proof. vm_compute. reflexivity. Qed.
 Print Assumptions C14_roundtrip_on_the_product.
+
+(* The same statement about the PRINTER'S OWN parser (format_loop of doPrintf, with its fast path,
+   argument-index and '*' handling), not the stand-alone parse_directive: run on the directive
+   MakeFormat rebuilt from the state s with one operand, doPrintf switches to safe mode, installs
+   exactly the state s (fmt_of: the nine flags of fmt.fmtFlags incl. the plusV/sharpV conversion
+   for %v, width, precision) and prints the operand under the forwarded verb; it emits no
+   diagnostic and changes nothing else.  For every s, verb, operand, evaluator and printer state. *)
+Theorem C14_printer_installs_the_forwarded_state : forall s v a rec st, st_ok s -> verb_ok v ->
+  doPrintf rec (snd (make_format s v)) [a] st =
+  (enter_safe ;;; modify (fun s0 => set_pf (set_good (set_reordered s0 false) true) (fmt_of s v)) ;;;
+   rec (CPrintArg a v) ;;; ret tt) st.
+Proof. exact doPrintf_forwarded. Qed.
+Print Assumptions C14_printer_installs_the_forwarded_state.
+
+Example C14_fmt_of_example :
+  fmt_of (mkSt true false true false true (Some 12) (Some 3)) 118 =
+  mkF (mkFlags true true false false false false true true true) 12 3.
+Proof. reflexivity. Qed.
